@@ -13,7 +13,10 @@ m = {
  "engines": [{"name": "pyvc", "path": "pyvc/", "serves_properties": sorted(CLAIMED),
               "kind_free_text": "self-built weakest-precondition / symbolic-execution VC generator over the Python AST of the real /repo/src functions with sidecar contracts; obligations discharged by z3 5.1.0 (Python API), cvc5 1.0.3 for z3 'unknown'; counter-models replayed natively under /venv/bin/python"}],
  "checks": [], "not_applicable": [],
- "notes": "Contract-based deductive verification; see DESIGN.md. Exit codes of ./check: 0 held, 1 violation (replayed), 2 undecided, 3 checker error.",
+ "notes": "Contract-based deductive verification; see DESIGN.md §A. Exit codes of ./check: 0 held, 1 violation (replayed), 2 undecided, 3 checker error. "
+          "The thorough tier discharges the same obligations with four times the solver budget and, for the contracts whose input shapes are "
+          "enumerated (C09 certificate dictionaries, C13 filters), over a wider enumeration (more permission-group shapes; every pair of "
+          "comparison operators in two-statement filters).",
 }
 for pid in sorted(CLAIMED):
     e = CLAIMED[pid]
